@@ -16,7 +16,9 @@ func vkEnvInt(name string, def int) int {
 	return def
 }
 
-func quietLogger() *slog.Logger { return slog.New(slog.NewTextHandler(io.Discard, &slog.HandlerOptions{Level: slog.LevelError + 100})) }
+func quietLogger() *slog.Logger {
+	return slog.New(slog.NewTextHandler(io.Discard, &slog.HandlerOptions{Level: slog.LevelError + 100}))
+}
 
 func unhexs(s string) []byte {
 	var out []byte
